@@ -496,7 +496,9 @@ META = {
         "that set w / d / g G rg RG k K / cs+sc / CS+SC (10 setters, with and without q..Q inside the form, directly and through a second form) invoked from a page with known "
         "line width, dash and colours under 2 CTMs, followed outside any q/Q by 're B', a one-operand sc and SC, and a closed path painted with B*: "
         "every attribute and the caller's colour spaces must be what they were before Do; "
-        "family leak: "
+        "family illpos (same shard as leak): g G rg RG k K and sc scn SC SCN in 1/3/4-component "
+        "spaces with a name or a string at every operand position, one at a time, after a known colour was set; pages with /Rotate 0/90/180/270 and MediaBox "
+        "[30 50 230 350] with and without a cm; family leak: "
         "a page (or form, or earlier document in the same process) defining ICCBased N=3 / N=4 colour spaces by name, then pages that do not define the name and "
         "execute 'cs|CS /Name' followed by a one-operand sc|SC and the probe (3 definitions x 4 arrangements x 4 users). A case = one path object x end operator x CTM, or one gs history + probe; non-trivial = at least one shape expected. "
         "states = gs states + nodes of the path-construction tree, transitions = operator applications, traces = programs compared with the model."
@@ -777,6 +779,66 @@ def forms_check(st):
     st.add("form_pages", len(pages))
 
 
+# ------------------------------------------------------------------ family: ill-typed operand at every position; rotated pages
+def _ill_variants(vals):
+    for pos in range(len(vals)):
+        for bad in ("/X", b"s"):
+            yield tuple(vals[:pos]) + (bad,) + tuple(vals[pos + 1:])
+
+
+def illpos_check(st):
+    """(a) every colour operator with one operand of the wrong type at every position, after a known colour was set:
+    nothing changes; (b) pages with /Rotate 0/90/180/270 and a MediaBox whose lower-left corner has x0 != y0: the
+    visible page's lower-left corner is the origin of the reported coordinates"""
+    pages, models = [], []
+    q4 = (Fr(1, 4), Fr(1, 2), Fr(3, 4), 0)
+    direct = [("g", (Fr(1, 8),), ("rg", 1, 0, Fr(1, 2))), ("G", (Fr(1, 8),), ("RG", 0, Fr(1, 2), 1)),
+              ("rg", (0, 1, Fr(1, 4)), ("g", Fr(1, 2))), ("RG", (1, Fr(1, 4), 0), ("G", Fr(1, 4))),
+              ("k", q4, ("rg", 1, 0, Fr(1, 2))), ("K", q4, ("RG", 0, Fr(1, 2), 1))]
+    for op, vals, setup in direct:
+        for ill in _ill_variants(vals):
+            evs = (("w", 2), setup, (op,) + ill) + PROBE
+            pages.append((gfx.program(evs), {}))
+            models.append((evs, gfx.IDENT))
+    good = {1: (Fr(3, 4),), 3: (Fr(1, 2), Fr(1, 4), 1), 4: (0, Fr(1, 4), Fr(1, 2), 1)}
+    other = {1: (Fr(1, 8),), 3: (0, 1, Fr(1, 4)), 4: q4}
+    for space, n in (("DeviceGray", 1), ("DeviceRGB", 3), ("DeviceCMYK", 4)):
+        for op in ("sc", "scn", "SC", "SCN"):
+            for ill in _ill_variants(other[n]):
+                evs = (("w", 2), ("CS" if op.isupper() else "cs", "/" + space), (op,) + good[n], (op,) + ill) + PROBE
+                pages.append((gfx.program(evs), {}))
+                models.append((evs, gfx.IDENT))
+    x0, y0, x1, y1 = 30, 50, 230, 350
+    # device space = the page as displayed, its lower-left corner at the origin (Rotate is clockwise, ISO table 30)
+    rot = {0: (1, 0, 0, 1, -x0, -y0), 90: (0, -1, 1, 0, -y0, x1), 180: (-1, 0, 0, -1, x1, y1), 270: (0, 1, -1, 0, y1, -x0)}
+    for r, m0 in rot.items():
+        for cm in (None, CTMS[2]):
+            evs = (("w", 2),) + ((cm,) if cm else ()) + PROBE + (("m", 8, 16), ("l", 8, 48), ("l", 24, 48), ("l", 24, 16), ("h",), ("f",))
+            pages.append((gfx.program(evs), {}, {"MediaBox": [x0, y0, x1, y1], "Rotate": r}))
+            models.append((evs, m0))
+    data = gfx.pages_doc(pages)
+    out = gfx.run_pages(data)
+    st.traces += 1
+    for (evs, m0), (lt, exc) in zip(models, out):
+        m = GM()
+        m.gs["ctm"] = m0
+        for ev in evs:
+            m._do(ev)
+        exp = list(m.out)
+        obs = observe(lt) if exc is None else gfx.exc_sig(exc)
+        bad = diff(exp, obs) if exc is None else ["exception"]
+        st.case(None, nontrivial=True, outcome=h64(repr([(o["pts"], o["sc"], o["nc"]) for o in obs]) if exc is None else obs))
+        if bad:
+            sig = ("C16/rotated-page-initial-ctm:" if m0 is not gfx.IDENT else "C16/ill-typed-colour-operand:") + ",".join(sorted(bad))
+            st.violation(sig, {"family": "illpos", "events": list(evs), "pdf": data if st.viol_counts[sig] < 1 else b""},
+                         gfx.fl(exp), obs, "ill-typed colour operand / rotated page: " + ",".join(sorted(bad)))
+    if len(out) != len(pages):
+        st.violation("C16/illpos:pages", {"family": "illpos"}, len(pages), len(out), "page count")
+    st.states += len(pages)
+    st.transitions += len(pages)
+    st.add("illpos_pages", len(pages))
+
+
 # ------------------------------------------------------------------ family: named colour spaces do not leak
 def leak_check(st):
     """A page's /ColorSpace names exist for that page only.  Later pages, forms' callers and later documents that do
@@ -927,6 +989,7 @@ def run_shard(shard, tier, st):
     elif kind == "leak":
         ck = Checker(st)
         leak_check(st)
+        illpos_check(st)
         st.sample({"family": "leak", "page1_defines": "CS0 [/ICCBased N=3]", "page2": gfx.program((("cs", "/CS0"), ("sc", Fr(3, 4))) + PROBE)})
     elif kind == "pages":
         ck = Checker(st)
@@ -944,6 +1007,12 @@ def run_shard(shard, tier, st):
 
 
 def replay(case):
+    if case.get("family") == "illpos":
+        from mc.core import Stats
+
+        st = Stats()
+        illpos_check(st)
+        return [{"signature": v["signature"], "expected": repr(v["expected"]), "observed": repr(v["observed"])} for v in st.violations][:1]
     if case.get("family") == "forms":
         from mc.core import Stats
 
